@@ -24,6 +24,7 @@ for f in sorted(glob.glob(os.path.join(ROOT, "seeded", "*", "meta.json"))):
 print("| seeded change | what it is | caught by (first signature) |")
 print("|---|---|---|")
 for pid, name, title, caught, conf in rows:
-    short = "-".join(name.split("-")[:2])
+    parts = name.split("-")
+    short = "-".join(parts[:3] if parts[1].startswith("r") else parts[:2])
     print(f"| {short} | {title} | {caught} |")
 print(f"\n{len(rows)} changes, {sum(1 for r in rows if 'not caught' not in r[3])} caught")
